@@ -10,22 +10,24 @@ def tla_set(xs):
     return "{" + ",".join('"%s"' % x if isinstance(x, str) else str(x) for x in xs) + "}"
 
 
-def generate(ck, prop, tier, seed):
+def generate(ck, prop, tier, seed, map_entries=2):
     thorough = tier == "thorough"
-    mc = vlib.must_hold(vlib.tlc("ThriftWire", "MC_ThriftWire.cfg", workers=8), "ThriftWire invariants (1 field)")
+    one = {"MaxMapEntries": map_entries}
+    mc = vlib.must_hold(vlib.tlc("ThriftWire", "MC_ThriftWire.cfg", workers=8, defines=one), "ThriftWire invariants (1 field)")
     ck.add_mc(mc, "MC_ThriftWire")
     rnd = random.Random(seed)
     types = sorted(rnd.sample(ALL_TYPES, 4 if thorough else 3))
     if "BOOL" not in types:
         types[0] = "BOOL"      # bools interact with deltas in the compact field header: always in
-    ids = sorted(rnd.sample(ALL_IDS, 4 if thorough else 3) + [1, 70])   # 1 and 70: an id range wider than one bitmap word
-    multi = {"MaxFields": 3 if thorough else 2, "GenTypes": tla_set(sorted(set(types))), "FieldIds": tla_set(sorted(set(ids))), "MaxId": 1}
+    # always in: 1 and 70 (an id range wider than one bitmap word), 16 and 17 (a long-form header followed by a short delta)
+    ids = sorted(set(rnd.sample(ALL_IDS, 2 if thorough else 1) + [1, 16, 17, 70]))
+    multi = {"MaxMapEntries": map_entries, "MaxFields": 3 if thorough else 2, "GenTypes": tla_set(sorted(set(types))), "FieldIds": tla_set(sorted(set(ids))), "MaxId": 1}
     mc2 = vlib.must_hold(vlib.tlc("ThriftWire", "MC_ThriftWire.cfg", workers=vlib.NCPU, defines=multi, tag="ThriftWire-mc2", timeout=3000),
                          "ThriftWire invariants (multi-field)")
     ck.add_mc(mc2, "MC_ThriftWire(multi)")
     vec = vlib.vecpath(prop, "gen")
     with open(vec, "w") as sink:
-        g1 = vlib.must_hold(vlib.tlc("ThriftWire", "Gen_ThriftWire.cfg", workers=8, sink=sink), "generation (1 field)")
+        g1 = vlib.must_hold(vlib.tlc("ThriftWire", "Gen_ThriftWire.cfg", workers=8, sink=sink, defines=one), "generation (1 field)")
         ck.add_mc(g1, "Gen_ThriftWire(1 field, all types, all ids)")
         ck.notes["first_part"] = g1.vectors
         g2 = vlib.must_hold(vlib.tlc("ThriftWire", "Gen_ThriftWire.cfg", workers=vlib.NCPU, sink=sink, defines=multi,
@@ -35,9 +37,9 @@ def generate(ck, prop, tier, seed):
     return vec
 
 
-def run(prop, tier, seed, rule, assumptions, shards=4, isolate=False, vlimit_kb=None):
+def run(prop, tier, seed, rule, assumptions, shards=4, isolate=False, vlimit_kb=None, map_entries=2):
     ck = vlib.Check(prop, tier, seed)
-    vec = generate(ck, prop, tier, seed)
+    vec = generate(ck, prop, tier, seed, map_entries=map_entries)
     kept, total = vlib.cap_vectors(vec, 400000 if tier == "thorough" else 40000, seed, keep_first=ck.notes.get("first_part", 0))
     ck.notes["vectors_generated"], ck.notes["vectors_replayed"] = total, kept
     ck.exhaustive_replay = kept == total
